@@ -78,6 +78,8 @@ def instances_for(prop, tier, seed):
         add(script='one', prefix='inflight', k=k - 1, budget={'change': 2, 'tick': 1})
         add(script='none', k=k, budget={'change': 2, 'partial': 1, 'tick': 1})
         if prop == 'C04':
+            # names in another letter case than the ones the client knows are other names (reported verbatim)
+            add(script='one', k=k, budget={'change': 2, 'names': ['LastFM_x', 'Player', 'mixer']})
             add(script='one', k=k + 1, budget={'change': 1, 'faults': ['write_error']})
             # a backlog of undelivered notifications (the consumer is slow): 70 pending changes answered in one idle reply
             add(script='one', prefix='backlog', k=2, budget={}, backlog=70 if q else 130)
@@ -104,6 +106,10 @@ def instances_for(prop, tier, seed):
         add(script='list', prefix='inflight_partial2', k=k, budget={'faults': ['eof']})
         add(script='listok', prefix='inflight_partial2', k=k, budget={'faults': ['eof']})
         add(script='one', k=k + 1, budget={'change': 1, 'faults': ['eof']})
+        # the user has dropped the event receiver (documented as allowed): the end of the connection is still noticed
+        for f in ('eof', 'read_error', 'garbage'):
+            add(script='none', k=k, budget={'dropevents': 1, 'faults': [f]})
+        add(script='one', prefix='after_reply', k=k + 1, budget={'dropevents': 1, 'faults': ['eof'], 'tick': 1})
         add(script='one', prefix='after_reply', k=k, budget={'faults': ['idleack'], 'tick': 1})
         add(script='art', prefix='inflight', k=k + 1, budget={'faults': ['eof']}, step_deliver=True)
         add(script='one', k=k, budget={'dropclient': 1})
@@ -311,7 +317,9 @@ def judge_c08(obs):
         closing = [e for e in ev if e == 'closed']
         if len(closing) > 1:
             return 'more than one closing event'
-        if not ev or ev[-1] != 'end':
+        if 'dropevents' in obs['steps']:
+            pass            # the user dropped the event receiver: there is no event stream left to observe
+        elif not ev or ev[-1] != 'end':
             return 'the event stream does not end after the connection ended'
         if 'closed' in ev and ev.index('closed') != len(ev) - 2:
             return 'events after the closing event'
@@ -324,7 +332,7 @@ def judge_c08(obs):
         return 'last client handle dropped but the transport is not released'
     # a failure that is not a clean close is surfaced: to the in-flight caller or as closing event
     hard = [f for f in obs['flags'] if f in ('fault:read_error', 'fault:garbage', 'fault:write_error')]
-    if hard and obs['loop_done']:
+    if hard and obs['loop_done'] and 'dropevents' not in obs['steps']:
         surfaced = 'closed' in obs['events'] or any(out[0] == 'protocol' for c in obs['callers'] for _, out in c['results'])
         if not surfaced:
             return 'transport failure (%s) surfaced neither to a caller nor as closing event' % hard[0]
@@ -388,7 +396,7 @@ def run_for(prop, pl):
     return res.to_dict()
 
 # ---------------------------------------------------------------------------- C17 album art
-def art_server(picture, limit, embedded, mime, errcode, limit2=None, cutlf=False):
+def art_server(picture, limit, embedded, mime, errcode, limit2=None, cutlf=False, late_err=False):
     """limit2: chunk limit from the second chunk on (the server may hand out less than before); cutlf: the transport delivers a chunk
     up to its last payload byte first and the terminating line feed separately"""
     def handle(srv, line):
@@ -397,6 +405,9 @@ def art_server(picture, limit, embedded, mime, errcode, limit2=None, cutlf=False
             return None
         srv.art_requests.append(line)
         off = int(parts[-1])
+        if late_err and off > 0:
+            # the file went away between two chunk requests: the request for a later chunk is answered with an error
+            return b'ACK [50@0] {%s} No such file\n' % parts[0]
         if parts[0] == b'readpicture':
             if errcode is not None:
                 return b'ACK [%d@0] {readpicture} nope\n' % errcode
@@ -432,14 +443,17 @@ def run_art(P, res, pl):
         if limit >= 2 and size > limit and I.ctx.choose(2, 'limit2') == 1:
             limit2 = limit - 1
         cutlf = I.ctx.choose(2, 'cutlf') == 1 if size else False
-        I._artx = (limit2, cutlf)
+        late = False
+        if size > limit and src < 3 and not pl.get('two') and I.ctx.choose(2, 'late_err') == 1:
+            late = True
+        I._artx = (limit2, cutlf, late)
         S.step_deliver = cutlf
         if src == 0:
-            S.server.custom = art_server(picture, limit, True, mime, None, limit2, cutlf)
+            S.server.custom = art_server(picture, limit, True, mime, None, limit2, cutlf, late)
         elif src == 1:
-            S.server.custom = art_server(picture, limit, False, None, None, limit2, cutlf)
+            S.server.custom = art_server(picture, limit, False, None, None, limit2, cutlf, late)
         elif src == 2:
-            S.server.custom = art_server(picture, limit, False, None, 5, limit2, cutlf)
+            S.server.custom = art_server(picture, limit, False, None, 5, limit2, cutlf, late)
         else:
             if I.ctx.choose(2, 'nonekind') == 0:
                 S.server.custom = art_server(None, limit, False, None, None)
@@ -476,7 +490,10 @@ def run_art(P, res, pl):
             bad = 'album_art never resolves (requests: %s)' % reqs[:6]
         else:
             o = outcome_of(c.results[0][1])
-            if other_err:
+            if pr.interp._artx[2]:
+                if o[0] != 'ack' or int(o[1]) != 50:
+                    bad = 'the server answered a later chunk request with error 50, album_art returns %s' % (o[:3],)
+            elif other_err:
                 if o[0] != 'ack' or int(o[1]) != other_err:
                     bad = 'server error %d is not propagated: %s' % (other_err, o[:3])
             elif src == 3:
@@ -500,7 +517,7 @@ def run_art(P, res, pl):
         res.cls('art source %d' % src, nontrivial=True)
         if bad:
             res.violations.append({'what': bad, 'input': {'scenario': pl, 'source': src, 'mime': mime is not None, 'other_err': other_err,
-                                                          'limit2': pr.interp._artx[0], 'cutlf': pr.interp._artx[1]}})
+                                                          'limit2': pr.interp._artx[0], 'cutlf': pr.interp._artx[1], 'late_err': pr.interp._artx[2]}})
         if len(res.samples) < 1:
             res.samples.append({'size': size, 'limit': limit, 'source': src, 'requests': [r.decode() for r in reqs]})
         res.take_stats(pr.ctx.stats); pr.ctx.stats.__init__()
@@ -638,7 +655,7 @@ def replay_for(prop, rec, every=0):
     if pl.get('family') == 'art':
         src = inp.get('source', 0)
         nsrc = 4 if inp.get('other_err') else (src if src < 3 else 3)
-        spec = '%d,%d,%d,%d,%d,%d' % (pl['size'], pl['limit'], nsrc, 1 if inp.get('mime') else 0, inp.get('limit2') or 0, 1 if inp.get('cutlf') else 0)
+        spec = '%d,%d,%d,%d,%d,%d,%d' % (pl['size'], pl['limit'], nsrc, 1 if inp.get('mime') else 0, inp.get('limit2') or 0, 1 if inp.get('cutlf') else 0, 1 if inp.get('late_err') else 0)
         if pl.get('two'):
             out = run_replay(['client', 'art:other;art:song', '-', 'OK', spec, 'loop', 'issue0'] + ['loop', 'deliver'] * 12 + ['poll0', 'issue0'])
         else:
@@ -647,6 +664,8 @@ def replay_for(prop, rec, every=0):
             return True, 'native run panics'
         picture = bytes([0x41 + (i % 5) if i % 3 else 10 for i in range(pl['size'])])
         res_ = out.get('result0', ['?'])[-1].partition(' => ')[2]
+        if inp.get('late_err'):
+            return (not res_.startswith('ack 50 ')), 'native: result %s' % res_
         if inp.get('other_err'):
             return (not res_.startswith('ack 52 ')), 'native: result %s' % res_
         if src == 3:
